@@ -91,6 +91,15 @@ func (d *DNSFilter) filterSetProperties(
 	newList FilterYAML,
 	isAllowlist bool,
 ) (shouldRestart bool, err error) {
+	// Wait for the refresh that is going on, if any, and don't let a new one
+	// start.  A refresh downloads the lists into their files using a snapshot
+	// of the properties taken without any lock held across the downloads, so
+	// changing the location, the enabled flag, or the checksum of a list, or
+	// downloading into the same file here at the same time, would leave the
+	// file with the contents that the properties of the list don't describe.
+	d.refreshLock.Lock()
+	defer d.refreshLock.Unlock()
+
 	d.conf.filtersMu.Lock()
 	defer d.conf.filtersMu.Unlock()
 
